@@ -86,6 +86,7 @@ fn run(ctx: &Ctx, out: &mut Out) {
     leg_population(ctx, out);
     leg_jets(ctx, out);
     leg_widths(ctx, out);
+    leg_terms(ctx, out);
 }
 
 fn one(ctx: &Ctx, out: &mut Out, leg: &str, prog: &[u8], wit: &[u8], origin: &str) -> bool {
@@ -258,6 +259,59 @@ fn leg_jets(ctx: &Ctx, out: &mut Out) {
             };
             let (pb, wb) = r.to_vec_with_witness();
             one(ctx, out, leg, &pb, &wb, &format!(" [{}]", fam.jet(j)));
+        }
+    }
+}
+
+/// The disconnect and crossed-profile terms of C05/C07, pinned to their principal types and closed to
+/// unit -> unit programs: validity, roots and in particular the static cost bound against libsimplicity
+/// (the population's disconnect nodes have branches of width 0 on both sides).
+fn leg_terms(ctx: &Ctx, out: &mut Out) {
+    use crate::props::c05::{asymmetric_terms, disconnect_terms, inputs_of};
+    use crate::props::c06::pinned_expression;
+    use crate::reference::eval::{Term, Tm};
+    use crate::reference::tyval::RT;
+    use crate::space::terms::Builder;
+    let leg = "terms";
+    fn has_fail(t: &Term) -> bool {
+        match &t.tm {
+            Tm::Fail(_) => true,
+            Tm::InjL(s) | Tm::InjR(s) | Tm::Take(s) | Tm::Drop(s) | Tm::AssertL(s, _) | Tm::AssertR(_, s) => has_fail(s),
+            Tm::Comp(a, b) | Tm::Case(a, b) | Tm::Pair(a, b) | Tm::Disconnect(a, b) => has_fail(a) || has_fail(b),
+            _ => false,
+        }
+    }
+    let mut b = Builder::with_family(Fam::Elements);
+    let mut terms: Vec<(String, std::rc::Rc<Term>)> = disconnect_terms(ctx.tier).into_iter().filter(|t| !has_fail(t)).map(|t| (t.describe(), t)).collect();
+    terms.extend(asymmetric_terms());
+    for (name, t) in terms {
+        if !ctx.mine() {
+            continue;
+        }
+        // one input is enough: roots and bounds do not depend on it beyond the witness hash
+        let Some(input) = inputs_of(&t.src).into_iter().next() else { continue };
+        let expr = pinned_expression(&t, &input);
+        let unit_ty = RT::unit();
+        let prog = Term::new(Tm::Comp(expr.clone(), Term::new(Tm::Unit, &expr.tgt, &unit_ty)), &unit_ty, &unit_ty);
+        let r = match guard(|| b.redeem(&prog)) {
+            Ok(Ok(r)) => r,
+            Ok(Err(_)) => continue,
+            Err(p) => {
+                out.violation(&panic_class(&p), leg, name.clone(), p);
+                continue;
+            }
+        };
+        // only principally typed programs mean the same thing to both sides
+        b.pin = false;
+        let free = guard(|| b.redeem(&prog));
+        b.pin = true;
+        if !matches!(free, Ok(Ok(f)) if f.ihr() == r.ihr()) {
+            out.count("terms:skipped(annotation is not the principal typing)", 1);
+            continue;
+        }
+        let (pb, wb) = r.to_vec_with_witness();
+        if one(ctx, out, leg, &pb, &wb, &format!(" [{name}]")) {
+            out.count("terms:accepted-by-both", 1);
         }
     }
 }
